@@ -124,8 +124,10 @@ theorem C05_setexpr_cardinality_counterexample :
   have := (h.2 (.obj 0, .col 1)).mp (by decide)
   revert this; decide
 
-/-- the mirror image (stored multi property given a single expression) makes the
-    emitted `DROP COLUMN` fail on the backend -/
+/-- the mirror image: a stored multi property becoming a computed single one
+    (`ALTER PROPERTY tags { USING ('x'); RESET CARDINALITY }`, or `{ SET SINGLE USING (…);
+    USING ('x') }`) gets, on top of the correct `DROP TABLE`, a `DROP COLUMN` of a column
+    that never existed: the emitted SQL fails on the backend -/
 theorem C05_setexpr_cardinality_backend_counterexample :
     ∃ h, run {} h = .error .backend ∧ safeRun {} h = false :=
   ⟨[.createType 0 0 false, .createPtr ⟨1, some 0, .prop, .plain 5, false, false, false, []⟩,
